@@ -253,6 +253,9 @@ def task_laws():
     e = t.empty_solution()
     law("[P] empty_solution", len(e) == 1 and sorted(e[0]) == [0, 1, 2, 3])
     law("[P] correct_solution fixed point", t.correct_solution(e) == e)
+    for keys in ([30, 25, 1, 7.5, 2][:4], [-3.0, -7.0, 9.0, 8.0], [0.2, 0.1, 3.9, 3.5], [100.0, 50.0, 75.0, 60.0]):
+        law(f"[P] correct_solution({keys}) ranks the keys with the variable's own rule", t.correct_solution([keys]) == [pv.correct(keys)],
+            f"{t.correct_solution([keys])} vs {[pv.correct(keys)]}")
     d = t.transform_solution(e)
     law("[P] transform_solution", list(d) == ["p"] and d["p"] == [["a", "b", "c", "d"][i] for i in e[0]], f"{d!r} for {e!r}")
     return out
